@@ -260,4 +260,49 @@ theorem monitor_accepts (ch timeout : Nat) (es : List PEv) (hv : ∀ e ∈ es, E
     ({} : Mon).accepts ch timeout (traceOf ch { timeout := timeout } es) = true :=
   accepts_of_inv ch timeout es hv {} PState.default (by simp [PState.default, MInv])
 
+/-! ### the whole 16-channel scanner -/
+
+theorem traceOf_eq_zip (ch : Nat) (c : PChan) (es : List PEv) : traceOf ch c es = es.zip (c.evs ch es).2 := by
+  induction es generalizing c with
+  | nil => rfl
+  | cons e es ih => simp [traceOf, PChan.evs, ih]
+
+theorem project_valid (c now : Nat) (ops : List TOp) (hv : ∀ op ∈ ops, op.Valid) : ∀ e ∈ project c now ops, EvValid e := by
+  induction ops generalizing now with
+  | nil => intro e he; simp [project] at he
+  | cons op ops ih =>
+    intro e he
+    have hop := hv op List.mem_cons_self
+    have ih' := ih (nextNow now op) (fun o ho => hv o (List.mem_cons_of_mem _ ho))
+    simp only [project] at he
+    cases hp : projectOp c now op with
+    | none => rw [hp] at he; exact ih' e he
+    | some e' =>
+      rw [hp] at he
+      rcases List.mem_cons.mp he with h | h
+      · subst h
+        cases op with
+        | feed b =>
+          simp only [projectOp] at hp
+          split at hp
+          · injection hp with hp; subst hp
+            exact ⟨hop.2.2.1, hop.2.2.2⟩
+          · cases hp
+        | poll ch => simp only [projectOp] at hp; split at hp <;> first | (injection hp with hp; subst hp; trivial) | cases hp
+        | reset => simp only [projectOp] at hp; injection hp with hp; subst hp; trivial
+        | tick d => simp [projectOp] at hp
+      · exact ih' e h
+
+/-- C14 for the WHOLE scanner: under any interleaving of valid feeds on all 16 channels, polls, resets and time steps,
+    started from `new(timeout)` at any time, the scanner never panics and for every channel the monitor accepts the
+    sequence of (event of that channel, what the call returned) -/
+theorem monitor_accepts_scanner (c : Nat) (hc : c < 16) (now timeout : Nat) (ops : List TOp) (hv : ∀ op ∈ ops, op.Valid) :
+    ∃ n s outs, pRun now (PScanner.new timeout) ops = .ok ((n, s), outs) ∧
+      ({} : Mon).accepts c timeout ((project c now ops).zip (outputsOn c now ops outs)) = true := by
+  obtain ⟨n, s, outs, h, _, _, ho⟩ := p_run_channel c hc now (PScanner.new timeout) ops hv
+  refine ⟨n, s, outs, h, ?_⟩
+  have hnew : (PScanner.new timeout)[c] = ({ timeout := timeout } : PChan) := by simp [PScanner.new]
+  rw [ho, hnew, ← traceOf_eq_zip]
+  exact monitor_accepts c timeout _ (project_valid c now ops hv)
+
 end Midi.Props.C14
